@@ -10,6 +10,9 @@ import (
 	"os"
 	"runtime/debug"
 	"strings"
+	"sync"
+	"sync/atomic"
+	"time"
 
 	"golang.org/x/tools/go/ssa"
 )
@@ -96,6 +99,11 @@ type Gor struct {
 	doneG  *Term
 	daemon bool
 	fnName string
+	// identity for the native replay controller: spawned by goroutine `parent` at the go statement at
+	// `site` ("file:line"), as the occ-th goroutine from that (parent, site); site "" = no native identity
+	parent int
+	site   string
+	occ    int
 }
 
 type Obl struct {
@@ -166,6 +174,8 @@ type Engine struct {
 	trace         bool
 	maxSlice      int
 	feas          *Solver
+	feasPool      []*Solver
+	feasPar       int
 	feasN         int
 	feasCut       int
 	feasMs        int64
@@ -1043,4 +1053,65 @@ func (e *Engine) feasibleWith(g *Term) bool {
 		return false
 	}
 	return true
+}
+
+// feasibleBatch decides the feasibility of several guards (each together with the scheduling
+// constraints) on a pool of solver processes in parallel. unknown/timeout/error = feasible (kept).
+func (e *Engine) feasibleBatch(gs []*Term) []bool {
+	res := make([]bool, len(gs))
+	for i := range res {
+		res[i] = true
+	}
+	k := e.feasPar
+	if k <= 0 {
+		k = 8
+	}
+	if k > len(gs) {
+		k = len(gs)
+	}
+	for len(e.feasPool) < k {
+		e.feasPool = append(e.feasPool, nil)
+	}
+	for i := 0; i < k; i++ {
+		if e.feasPool[i] == nil || e.feasPool[i].dead {
+			sv, err := NewSolver("z3-new", "")
+			if err != nil {
+				return res
+			}
+			sv.useTac = true
+			e.feasPool[i] = sv
+		}
+	}
+	var next int32
+	var mu sync.Mutex
+	var wg sync.WaitGroup
+	start := time.Now()
+	for w := 0; w < k; w++ {
+		wg.Add(1)
+		go func(sv *Solver) {
+			defer wg.Done()
+			for {
+				i := int(atomic.AddInt32(&next, 1)) - 1
+				if i >= len(gs) || sv.dead {
+					return
+				}
+				if gs[i].IsFalse() {
+					res[i] = false
+					continue
+				}
+				as := append(append([]*Term{}, e.constraints...), gs[i])
+				r := sv.Check(as, 4000, false)
+				mu.Lock()
+				e.feasN++
+				if r.Status == "unsat" {
+					e.feasCut++
+					res[i] = false
+				}
+				mu.Unlock()
+			}
+		}(e.feasPool[w])
+	}
+	wg.Wait()
+	e.feasMs += time.Since(start).Milliseconds()
+	return res
 }
